@@ -6,6 +6,8 @@ fn main() {
     let f = factory(&v);
     let g = if let Some(path) = a[1].strip_prefix("lark:") {
         GrammarSpec::Lark(std::fs::read_to_string(path).unwrap())
+    } else if let Some(path) = a[1].strip_prefix("jsonfile:") {
+        GrammarSpec::Json(serde_json::from_str(&std::fs::read_to_string(path).unwrap()).unwrap())
     } else {
         GrammarSpec::Json(serde_json::from_str(&a[1]).unwrap())
     };
